@@ -59,6 +59,12 @@ func vNewKey(kind, name string) *vKey {
 			panic(err)
 		}
 		k.priv, k.pub, k.alg = s, &s.PublicKey, a
+	case "rsa1024":
+		s, err := rsa.GenerateKey(crand.Reader, 1024)
+		if err != nil {
+			panic(err)
+		}
+		k.priv, k.pub, k.alg = s, &s.PublicKey, jwa.PS512
 	case "rsa":
 		s, err := rsa.GenerateKey(crand.Reader, 2048)
 		if err != nil {
